@@ -29,7 +29,7 @@ CONSTANTS Cmds,       \* command ids
           TO,         \* response timeout (logical ticks; ms in trace validation)
           Ghost,      \* a sender that is nobody's target
           ForeignId,  \* a command id nobody issued
-          Mutant,     \* "none" | "idonly" | "tgtonly" | "nounreg" | "cmdwide"
+          Mutant,     \* "none" | "idonly" | "tgtonly" | "nounreg" | "cmdwide" | "inflight"
           EnqOrders   \* {} : commands are enqueued by the Enqueue action at any time;
                       \* else a set of sequences of commands: everything is enqueued at the start
                       \* in one of these orders (smaller state space, same queue contents)
@@ -132,8 +132,11 @@ BeginCommit(c) ==
 
 (* ---------------- per-target goroutine: Servent.RunCommand ---------------- *)
 \* s.mu.Lock(); s.pending[callId] = call; s.mu.Unlock()
+\* (Mutant "inflight": a per-command limit - here 1 - on the calls between Register and return)
+InFlight(c) == Cardinality({t \in tg[c] : pc[<<c, t>>] \in {"registered", "sending", "waiting", "tofired", "sffired"}})
+MayStart(c) == Mutant # "inflight" \/ InFlight(c) < 1
 Register(c, t) ==
-  /\ pc[<<c, t>>] = "idle"
+  /\ pc[<<c, t>>] = "idle" /\ MayStart(c)
   /\ pending' = Put(pending, Key(c, t), <<c, t>>)
   /\ pc' = [pc EXCEPT ![<<c, t>>] = "registered"]
   /\ UNCHANGED <<tg, qof, enq, queue, commit, beh, net, held, result, deadline, began, clock, delivered>>
@@ -229,7 +232,8 @@ Deliver(c) ==
 SysEnabled ==
   \/ \E c \in Cmds : LET q == qof[c] IN commit[q] = NoCmd /\ queue[q] # <<>> /\ Head(queue[q]) = c
   \/ \E p \in Active :
-       \/ pc[p] \in {"idle", "registered", "tofired", "sffired"}
+       \/ pc[p] \in {"registered", "tofired", "sffired"}
+       \/ pc[p] = "idle" /\ MayStart(p[1])
        \/ pc[p] = "sending" /\ ~SlowSend(beh[p])
        \/ pc[p] = "waiting" /\ (held[p] # NoMsg \/ clock >= deadline[p])
   \/ \E c \in Cmds : commit[qof[c]] = c /\ \A t \in tg[c] : pc[<<c, t>>] = "ret"
@@ -302,6 +306,11 @@ Bounded ==
   \A q \in Queues :
     (commit[q] # NoCmd /\ \A t \in tg[commit[q]] : pc[<<commit[q], t>>] \notin {"idle", "registered", "sending"})
       => clock <= began[commit[q]] + TO
+\* every target is handed the command promptly, however many targets there are: no call is still
+\* waiting to be sent when a sibling call has already run into its timeout
+PromptSend ==
+  \A p \in Active : pc[p] \in {"idle", "registered"} =>
+    \A t \in tg[p[1]] : pc[<<p[1], t>>] # "tofired" /\ result[<<p[1], t>>].k # "timeout"
 \* a timeout is never reported before the timer ran out
 TimeoutNotEarly == \A p \in Pairs : pc[p] = "tofired" => clock >= deadline[p]
 
